@@ -260,8 +260,10 @@ func ruleR03R04(c *Ctx) {
 		names := []string{"OVERWRITE", "RELINK", "LINK", "ROOTLINK", "SIZE+", "VALUE", "UNRECOGNISED-TREE-WRITE", "NODE-STORE"}
 		// insertPaths analyses one function as (part of) the insertion algorithm; calls to other
 		// methods of the same tree type that contain tree writes are inlined by their exit summaries
-		var insertPaths func(u *FuncUnit, depth int) *pathResult
-		insertPaths = func(u *FuncUnit, depth int) *pathResult {
+		// oldContent: parameters of an inlined helper that hold, at the call, the old content of
+		// the slot the caller has overwritten (reparent(ref, newNode, n, …) with n := *ref)
+		var insertPaths func(u *FuncUnit, depth int, oldContent map[*types.Var]bool) *pathResult
+		insertPaths = func(u *FuncUnit, depth int, oldContent map[*types.Var]bool) *pathResult {
 			g := c.m.cfgOf(u)
 			fl := c.e.flow(u)
 			// classify statements once
@@ -350,6 +352,8 @@ func ruleR03R04(c *Ctx) {
 						switch {
 						case isLeafRefVar(last):
 							evMap[n] = []int{evLK}
+						case last != nil && oldContent[last]:
+							evMap[n] = []int{evRL}
 						case last != nil:
 							// relink: must hold the old slot content at every overwrite that reaches here
 							okAll, any := true, false
@@ -435,7 +439,37 @@ func ruleR03R04(c *Ctx) {
 				if found == nil {
 					return nil, nil
 				}
-				sub := insertPaths(cu, depth+1)
+				// which arguments hold the old content of the overwritten slot here?
+				old := map[*types.Var]bool{}
+				if cu.Decl != nil && cu.Decl.Type.Params != nil {
+					bb, _ := blockOf(g, n)
+					k := 0
+					for _, f := range cu.Decl.Type.Params.List {
+						for _, nm := range f.Names {
+							if k < len(found.Args) {
+								if av := identVar(info, found.Args[k]); av != nil {
+									okAll, any := true, false
+									for _, ov := range ovStmts {
+										ob, _ := blockOf(g, ov)
+										if ob != nil && bb != nil && reachable(ob)[bb] {
+											any = true
+											if !synced[ov][av] {
+												okAll = false
+											}
+										}
+									}
+									if (any && okAll) || oldContent[av] {
+										if pv, ok := info.Defs[nm].(*types.Var); ok {
+											old[pv] = true
+										}
+									}
+								}
+							}
+							k++
+						}
+					}
+				}
+				sub := insertPaths(cu, depth+1, old)
 				var sums []summary
 				any := false
 				for _, b := range sub.g.Blocks {
@@ -469,7 +503,7 @@ func ruleR03R04(c *Ctx) {
 		}
 		if u := tk.Methods["Insert"]; u != nil {
 			g := c.m.cfgOf(u)
-			res := insertPaths(u, 0)
+			res := insertPaths(u, 0, nil)
 			accepted := func(s pstate) bool {
 				n := s.n
 				if n[evNS] > 0 && n[evOV] == 0 {
